@@ -499,6 +499,53 @@ theorem cornacchia_extended_sound (isPP : Int → Bool) (n : Int) (primes : List
   cornacchiaExtended_sound isPP n primes bad x y B hB1 hB hn h
 example : ibzCornacchiaExtended probabPrime 725 [2, 5, 13] none = .ok (7, 26) ∧ (725 : Int).natAbs < 2 ^ 10 := by decide +kernel
 
+/-- the recombination loop of `ibz_cornacchia_extended` cannot fail when every listed prime that was stripped with a non-zero
+    valuation is a prime that is a sum of two squares (2 or ≡ 1 mod 4) -/
+theorem apply_primes_complete : ∀ (primes : List Int) (vals : List Nat) (xy : Int × Int),
+    (∀ p v, (p, v) ∈ primes.zip vals → v ≠ 0 → ∃ pn : Nat, p = pn ∧ pn.Prime ∧ (pn = 2 ∨ pn % 4 = 1)) →
+    ∃ xy', applyPrimes primes vals xy = .ok xy' := by
+  intro primes
+  induction primes with
+  | nil => intro vals xy _; exact ⟨xy, by simp [applyPrimes]⟩
+  | cons p ps ih =>
+    intro vals xy h
+    cases vals with
+    | nil => exact ⟨xy, by simp [applyPrimes]⟩
+    | cons v vs =>
+      have hrest : ∀ p' v', (p', v') ∈ ps.zip vs → v' ≠ 0 → ∃ pn : Nat, p' = pn ∧ pn.Prime ∧ (pn = 2 ∨ pn % 4 = 1) :=
+        fun p' v' hm hv => h p' v' (by simp [List.zip_cons_cons, hm]) hv
+      unfold applyPrimes
+      by_cases hv : v = 0
+      · simp only [hv, ne_eq, not_true_eq_false, if_false]; exact ih vs xy hrest
+      · simp only [ne_eq, hv, not_false_eq_true, if_true]
+        obtain ⟨pn, rfl, hpp, hp4⟩ := h p v (by simp [List.zip_cons_cons]) hv
+        obtain ⟨x, y, hc, _⟩ := cornacchia_prime_complete_n1 pn hpp hp4
+        simp only [extPrimeLoop, hc]
+        exact ih vs _ hrest
+
+/-- COMPLETENESS of `ibz_cornacchia_extended` relative to its trial-division stage: if after stripping the listed primes the
+    cofactor `nodd` is 1 or a prime ≡ 1 (mod 4) that the primality oracle accepts, `bad_primes_prod` is coprime to n, and every
+    stripped prime with non-zero valuation is 2 or ≡ 1 (mod 4), then a representation is returned (and by
+    `cornacchia_extended_sound` it is one of n) -/
+theorem cornacchia_extended_complete (isPP : Int → Bool) (n : Int) (primes : List Int) (bad : Option Int)
+    (nodd : Int) (vals : List Nat) (hbad : badPrimesHit n bad = false)
+    (hstrip : stripPrimes primes true n = .ok (nodd, vals))
+    (hnodd : nodd = 1 ∨ ∃ qn : Nat, nodd = qn ∧ qn.Prime ∧ qn % 4 = 1 ∧ isPP nodd = true)
+    (hlist : ∀ p v, (p, v) ∈ primes.zip vals → v ≠ 0 → ∃ pn : Nat, p = pn ∧ pn.Prime ∧ (pn = 2 ∨ pn % 4 = 1)) :
+    ∃ xy, ibzCornacchiaExtended isPP n primes bad = .ok xy := by
+  unfold ibzCornacchiaExtended
+  simp only [hbad, Bool.false_eq_true, if_false, hstrip]
+  rcases hnodd with h1 | ⟨qn, hq, hqp, hq4, hpp⟩
+  · subst h1
+    simp only [show ((1 : Int) % 4 ≠ 1) = False by decide, if_false, or_true, not_true_eq_false, if_true]
+    exact apply_primes_complete primes vals (1, 0) hlist
+  · have hmod : ¬ (nodd % 4 ≠ 1) := by rw [hq]; omega
+    have hne1 : nodd ≠ 1 := by rw [hq]; have := hqp.two_le; omega
+    simp only [hmod, if_false, hpp, true_or, not_true_eq_false, hne1]
+    obtain ⟨x, y, hc, _⟩ := cornacchia_prime_complete_n1 qn hqp (Or.inr hq4)
+    rw [hq, hc]
+    exact apply_primes_complete primes vals (x, y) hlist
+
 /-- integer core of one trial of `represent_integer` / `represent_integer_non_diag`:
     x² + y² + p·(z² + t²) = 4·n_gamma -/
 theorem represent_integer_trial_sound (isPP : Int → Bool) (nGamma p z t : Int) (primes : List Int) (bad : Option Int)
